@@ -2,7 +2,7 @@
 CLAIMS = {
  'C09': {'level': 'proof',
          'text': 'Every scalar conversion function of the regenerated ncx.c (all external x memory type pairs compiled in this configuration) is checked against a contract generated from its type pair and the spec (accept representable / reject unrepresentable incl. NaN / exact value / fill on NC_ERANGE / frame) over its full 2^8..2^64 input domain; the functions are loop-free so this is an unbounded proof per function. Array loops (putn/getn) and dispatch tables are bounded or listed as not yet under contract in the evidence.',
-         'note': 'trusted: CBMC float theory = IEEE-754 RNE, little-endian host, memcpy model; float->int conversion UB is decided by CBMC and confirmed by a UBSan run of the real code (CBMC bound imprecision for float32 sources); open known finding F16 (get of exactly 2^63/2^64 saturates)'},,
+         'note': 'trusted: CBMC float theory = IEEE-754 RNE, little-endian host, memcpy model; float->int conversion UB is decided by CBMC and confirmed by a UBSan run of the real code (CBMC bound imprecision for float32 sources); open known finding F16 (get of exactly 2^63/2^64 saturates)'},
  'C17': {'level': 'proof',
          'text': 'The file-id table functions of dispatchers/file.c (PNC_check_id, new_id_PNCList, del_from_PNCList) are enforced against contracts on the real 1024-slot table: a not-open id always gets NC_EBADID and never a NULL file object, a new id is the first free slot, NC_ENFILE iff the table is full, release frees exactly that slot; the scan loop is closed by a loop contract (unbounded).',
          'note': 'representation invariant of the table used in slot form (ghost slot / ghost free-slot witness); resource balance of create/open/close paths and ncmpio_cancel datatype frees not yet under contract (listed in DESIGN)'},
